@@ -30,7 +30,7 @@ for patch in patches:
         subprocess.check_call(["git", "-C", wt, "apply", "--whitespace=nowarn", patch])
         res = []
         for p in props:
-            r = subprocess.run([os.path.join(VERIF, "check"), p, "--repo", wt], capture_output=True, text=True)
+            r = subprocess.run([os.path.join(VERIF, "check"), p, "--repo", wt], capture_output=True, text=True, timeout=2400)
             if r.returncode != 0:
                 keys = re.findall(r"^  key:  (.*)$", r.stdout, re.M)
                 res.append("%s exit=%d %s" % (p, r.returncode, "; ".join(keys)[:200] or r.stdout[-200:]))
